@@ -76,7 +76,6 @@ Definition site_separate_decl : Z := 1806.      (* unreachable!() in separate_de
 Definition site_body_not_block : Z := 1807.     (* unreachable!() in remove_syntactic_sugar *)
 Definition site_rte_anon : Z := 1808.           (* unreachable!() in remove_tuple_from_expression *)
 Definition site_rhe_remove : Z := 1809.         (* rhe_values.remove(0) *)
-Definition site_split_at : Z := 1810.           (* str::split_at off a char boundary *)
 
 (* ---- file library, generated names, reports ----------------------------- *)
 
@@ -219,8 +218,8 @@ Definition contains_tuple (e : expression) : bool := contains_expr is_tuple e.
 
 Definition sub_len : nat := 230.
 
-(* str::is_char_boundary at a position strictly inside the string: the byte
-   there is not a UTF-8 continuation byte *)
+(* str::is_char_boundary: position 0 and the end are boundaries; inside the
+   string the byte there must not be a UTF-8 continuation byte *)
 Definition starts_char (s : string) : bool :=
   match s with
   | EmptyString => true
@@ -238,6 +237,20 @@ Fixpoint drop_bytes (n : nat) (s : string) : string :=
   | _, _ => s
   end.
 
+Definition is_char_boundary (s : string) (idx : nat) : bool :=
+  match idx with
+  | O => true
+  | _ => (idx <=? String.length s)%nat && starts_char (drop_bytes idx s)
+  end.
+
+(* `while !cur.is_char_boundary(end) { end -= 1; }` (fix c447a1c); position 0 is
+   a boundary, so the subtraction never underflows *)
+Fixpoint back_off (cur : string) (end_ : nat) : nat :=
+  if is_char_boundary cur end_ then end_
+  else match end_ with O => O | S e => back_off cur e end.
+
+(* the outer `while !cur.is_empty()` loop, on fuel: a chunk is empty only when a
+   string starts with 230 continuation bytes, which no Rust `String` does *)
 Fixpoint split_string (fuel : nat) (cur : string) : dres (list log_argument) :=
   match cur with
   | EmptyString => DOk []
@@ -245,12 +258,10 @@ Fixpoint split_string (fuel : nat) (cur : string) : dres (list log_argument) :=
       match fuel with
       | O => DOutOfFuel
       | S fuel' =>
-          let k := Nat.min sub_len (String.length cur) in
+          let k := back_off cur (Nat.min sub_len (String.length cur)) in
           let chunk := take_bytes k cur in
           let rest := drop_bytes k cur in
-          if starts_char rest then
-            v <- split_string fuel' rest ;; DOk (LogStr chunk :: v)
-          else DPanic site_split_at
+          v <- split_string fuel' rest ;; DOk (LogStr chunk :: v)
       end
   end.
 
